@@ -252,6 +252,12 @@ impl Report {
         if !unlisted.is_empty() {
             std::fs::create_dir_all(&replay_dir)
                 .unwrap_or_else(|e| machinery_fail(&format!("cannot create {:?}: {}", replay_dir, e)));
+            // every violating key of the run, one per line (the console output is capped)
+            let mut all = String::new();
+            for (key, e) in viol.iter() {
+                all.push_str(&format!("{}\t{}\t{}\n", key, e.count, e.what.replace('\n', " ")));
+            }
+            let _ = std::fs::write(replay_dir.join("ALL_KEYS.tsv"), all);
         }
         let mut unlisted_json = vec![];
         for (key, e) in unlisted.iter() {
